@@ -196,7 +196,7 @@ def getattr_(ex, o, name):
                 ga = class_lookup(ho.cls, '__getattr__')[1]
                 if isinstance(ga, types.FunctionType):
                     return ex.call(ex.func_of_native(ga), [o, name], {})
-            if ex.skeleton:
+            if ex.skeleton and may_be_instance_attr(ho.cls, name):
                 ex.abstraction_used = True
                 return Unknown(f'.{name}')
             if ho.model is not None and name in ho.model.fields:
@@ -206,6 +206,10 @@ def getattr_(ex, o, name):
             return ho.maxlen
         return Bound(name, o)
     if isinstance(o, Sym):
+        from .values import ext_kind
+
+        if ext_kind(o.k) is not None:
+            return ext_kind(o.k).getattr(ex, o, name)
         return Bound(name, o)
     if isinstance(o, (bytes, bytearray, tuple, str, int, frozenset, range, float)) and not isinstance(o, enum.Enum):
         return getattr(o, name)
@@ -238,6 +242,52 @@ def getattr_(ex, o, name):
             f.cls = owner
             return Bound(f, v.__self__)
     return ex.import_native(v)
+
+
+_INST_ATTRS: dict = {}
+
+
+def may_be_instance_attr(cls, name):
+    """skeleton profile: can an instance of `cls` have an attribute `name` that is not found on the class?  Only if some
+    class of its MRO assigns it (`self.name = ..`, `self.name: T`, a class-level annotation) or sets attributes
+    dynamically (setattr / __dict__ / __setattr__ / __getattr__); a class whose source cannot be read counts as "may".
+    (Attributes planted on the instance from outside the class are environment.)"""
+    if cls is None:
+        return True
+    key = (cls, name)
+    if key not in _INST_ATTRS:
+        _INST_ATTRS[key] = _scan_instance_attr(cls, name)
+    return _INST_ATTRS[key]
+
+
+def _scan_instance_attr(cls, name):
+    import ast as _ast
+    import inspect as _inspect
+    import textwrap as _textwrap
+
+    for c in cls.__mro__:
+        if c in (object,) or c.__module__ in ('typing', 'abc', 'builtins'):
+            continue
+        if name in getattr(c, '__annotations__', {}):
+            return True
+        try:
+            tree = _ast.parse(_textwrap.dedent(_inspect.getsource(c)))
+        except (OSError, TypeError, SyntaxError):
+            return True
+        # pickling / copying hooks restore the attributes an instance already had: they create no new names
+        for x in _ast.walk(tree):
+            if isinstance(x, _ast.ClassDef):
+                x.body = [y for y in x.body if not (isinstance(y, _ast.FunctionDef) and y.name in ('__getstate__', '__setstate__', '__reduce__', '__copy__', '__deepcopy__'))]
+        for x in _ast.walk(tree):
+            if isinstance(x, _ast.Attribute) and isinstance(x.ctx, (_ast.Store, _ast.Del)) and x.attr == name:
+                return True
+            if isinstance(x, _ast.Name) and x.id in ('setattr', '__dict__'):
+                return True
+            if isinstance(x, _ast.Attribute) and x.attr in ('__dict__', '__setattr__'):
+                return True
+            if isinstance(x, _ast.FunctionDef) and x.name in ('__getattr__', '__setattr__', '__getattribute__'):
+                return True
+    return False
 
 
 def type_of_recv(ex, v):
@@ -290,6 +340,10 @@ def pytype_of(ex, v):
             return bytes
         if isinstance(v.k, tuple) and v.k[0] == 'seq':
             return list
+        from .values import ext_kind
+
+        if ext_kind(v.k) is not None:
+            return ext_kind(v.k).pytype(v.k)
         return None
     if isinstance(v, Ref):
         ho = ex.obj(v)
@@ -362,6 +416,9 @@ def obj_len(ex, ref, ho):
 
 def obj_special(ex, ref, name, args):
     ho = ex.obj(ref)
+    if ho.model is not None and name in ho.model.methods:
+        # the class model declares the special method (a recorded callback / spec function of a ghost collaborator)
+        return ex.call(ex.getattr(ref, name), list(args), {})
     owner, raw = class_lookup(ho.cls, name)
     if isinstance(raw, types.FunctionType):
         return ex.call(ex.func_of_native(raw), [ref] + list(args), {})
@@ -416,7 +473,14 @@ def call_method(ex, recv, name, args, kwargs, node=None):
     raise Unsupported(f'method {name} on {recv!r}')
 
 
+BYTES_METHOD_HOOKS: dict = {}  # name -> fn(ex, recv, args, kwargs) -> value | NotImplemented  (pyvc/ext_*.py)
+
+
 def bytes_method(ex, recv, name, args, kwargs):
+    if name in BYTES_METHOD_HOOKS:
+        r_ = BYTES_METHOD_HOOKS[name](ex, recv, args, kwargs)
+        if r_ is not NotImplemented:
+            return r_
     if name == 'hex':
         if isinstance(recv, bytes):
             return recv.hex(*args)
@@ -1080,7 +1144,11 @@ def struct_pack(ex, fmt, *vals):
             parts.extend(units)
             continue
         ok = z3.And(t >= -(lim // 2), t < lim // 2) if signed else z3.And(t >= 0, t < lim)
-        if not ex.spec_mode and not (M.in_known_range(ex, v, -(lim // 2), lim // 2 - 1) if signed else M.in_known_range(ex, v, 0, lim - 1)):
+        if getattr(ex, 'quant_reqs', None) is not None:
+            # body of a comprehension of the code under proof over a sequence of symbolic length: the range
+            # requirement is collected per element (seqspec: the comprehension raises iff some element violates it)
+            ex.quant_reqs.append((ok, _struct.error, 'argument out of range'))
+        elif not ex.spec_mode and not (M.in_known_range(ex, v, -(lim // 2), lim // 2 - 1) if signed else M.in_known_range(ex, v, 0, lim - 1)):
             if not ex.branch(mk_bool(ok)):
                 raise PyExc(ex.new_exception(_struct.error, 'argument out of range'))
         u = t % lim if signed else t
